@@ -85,6 +85,13 @@ pub fn gen_load(a: &Args, out: &mut Out, run0: u64, nruns: u64) {
         for j in 0..nloads {
             let (we, dbg) = (chance(&mut rng, 20), chance(&mut rng, 50));
             let obj = gen_object(&mut rng, we, dbg);
+            // the I/O page is not part of any file: what device and register accesses (or the host) left in its
+            // shadow words stays there across a load
+            if chance(&mut rng, 60) {
+                let p: Vec<(u16, Word)> = (0..3).map(|_| (0xFE00 + rng.random_range(0..0x200u16), rand_word(&mut rng))).collect();
+                m.set_mems(out, &p);
+                for a in [0xFE04u16, 0xFFFC, 0xFFFE, 0xFE00] { if chance(&mut rng, 50) { m.read_mem(out, a, MemAccessCtx::omnipotent()); } }
+            }
             m.load(out, &obj);
             if j == 0 && chance(&mut rng, 50) {
                 // execute a little between loads
